@@ -28,6 +28,8 @@ LITERALS = ["1", "0x1F", "0b101", "1_000", "1.5", "'s'", '"s"', "'\\x41'",
             "//a//", "TRUE", "FALSE", "0x", "0b", "0x_", '"\\xZZ"',
             "//[//", "'\\x4'", "1.", "0b2", "////",
             "//a{99999999999999999999}//", "//(?P<n>a)(?P<n>b)//", "1.5_",
+            # inline flags of the host's pattern syntax, valid and invalid
+            "//(?a)x//", "//(?L)x//", "//(?au)x//", "//(?z)x//",
             "1._5", "1__0", "0x1_", "00", "1.5.5"]
 IDENTS = ["x", "all", "class", "keys", "values", "entries", "to", "import",
           "unqualified", "empty", "zero", "starts", "with", "contains",
@@ -41,6 +43,8 @@ CHARS = ["a", "x", "b", "0", "1", "_", ".", " ", "\n", "\r", "\t", "'", '"',
 
 
 LONG_TOKENS = [
+    "//(?i)x//", "//(?u)x//", "//(?ai)x//", "//(?x) a//", "//(?#c)x//",
+    "//(?s).//", "//(?m)^a$//", "//(?i:a)b//", "//(?-i:a)//", "//(?a:\\w)//",
     "9" * 5000, "1" + "0" * 4400, "-" + "9" * 5000, "0x" + "f" * 5000,
     "0b" + "1" * 9000, "1." + "3" * 5000, "9" * 5000 + ".5",
     "'" + "a" * 20000 + "'", "x" * 20000, "//" + "a" * 5000 + "//",
